@@ -10,6 +10,10 @@ import vlib
 MODEL_VO = ['Mtz/Header.vo', 'Mtz/Data.vo']
 
 
+# short sanitizer reports: the SUMMARY line must survive vlib's 1500-character tail
+SAN_ENV = {'ASAN_OPTIONS': 'detect_leaks=0:abort_on_error=0:allocator_may_return_null=1:print_legend=0'}
+
+
 def gen_tables():
     """Translator: regenerate coq/Mtz/Spec_gen.v (default spec tables of MtzToCif / CifToMtz) from the repo."""
     exe = vlib.build_exe('dump_mtzspec', [vlib.ROOT + '/gen/dump_mtzspec.cpp'] +
